@@ -80,6 +80,24 @@ class InitTracker(Tracker):
             d = n.get("decl")
             if d in self.scalars and n.kids:
                 return [st | {d}]
+            # `for (int i = 0; i < K; ++i) A[i] = ...;` with a constant K > 0 runs at least once and covers A: the
+            # zero-iteration path of such a loop is infeasible, so A counts as initialised from the loop's start
+            if n.kids and n.kids[0] is not None and n.kids[0].strip().cv == 0:
+                loop = n.parent.parent if n.parent is not None else None
+                if loop is not None and loop.k == "ForStmt" and loop.kids[2] is not None:
+                    c = loop.kids[2].strip()
+                    if c.k == "BinaryOperator" and c.op == "<" and c.kids[0].strip().k == "DeclRefExpr" and \
+                            c.kids[0].strip().refdecl == d and (c.kids[1].strip().cv or 0) > 0 and loop.kids[4] is not None:
+                        add = set()
+                        for m in loop.kids[4].walk():
+                            if m.k == "BinaryOperator" and m.op == "=" and m.kids[0].strip().k == "ArraySubscriptExpr":
+                                l = m.kids[0].strip()
+                                x, i = l.kids[0].strip(), l.kids[1].strip()
+                                if x.k == "DeclRefExpr" and x.refdecl in self.arrays and i.k == "DeclRefExpr" and i.refdecl == d and \
+                                        not any(a.k in ("IfStmt", "SwitchStmt") for a in m.ancestors() if loop.kids[4].is_ancestor_of(a)):
+                                    add.add(x.refdecl)
+                        if add:
+                            return [st | add]
         elif k in ("CompoundAssignOperator",) or (k == "UnaryOperator" and n.op in ("++", "--")):
             pass
         elif k == "ReturnStmt" and n.kids:
